@@ -215,6 +215,39 @@ def gen_design(rng, size=None, hazards=()):
                 break
             a = rng.choice(cand)
             stmts.insert(rng.randint(0, len(stmts)), {"k": "conn", "a": ref(a), "b": ref(b)})
+    if "multi-driver" in hazards:
+        # a second driver on a net bit that already has one: both instances want the same
+        # net-derived name
+        decl = set(bb["name"] for bb in bbs if bb["declared"])
+        outs = {bb["name"]: set(x[0] for x in bb["outs"]) for bb in bbs}
+        drivers = []
+        for s in stmts:
+            if s["k"] == "names" and s["nets"][-1] is not None:
+                drivers.append((s, "names", None))
+            elif s["k"] == "latch" and s["fields"][1] is not None:
+                drivers.append((s, "latch", None))
+            elif s["k"] in ("subckt", "gate") and s["model"] in decl:
+                for ci, c in enumerate(s["conns"]):
+                    if c[0] in outs[s["model"]] and c[3] is not None:
+                        drivers.append((s, "conn", ci))
+                        break
+
+        def get(d):
+            s, kind, ci = d
+            return s["nets"][-1] if kind == "names" else s["fields"][1] if kind == "latch" else s["conns"][ci][3]
+
+        def put(d, r):
+            s, kind, ci = d
+            if kind == "names":
+                s["nets"][-1] = list(r)
+            elif kind == "latch":
+                s["fields"][1] = list(r)
+            else:
+                s["conns"][ci][3] = list(r)
+        if len(drivers) >= 2:
+            a, b = rng.sample(drivers, 2)
+            if a[0] is not b[0]:
+                put(b, get(a))
     if "cname-default" in hazards:
         # what the composer writes for instances that kept their provisional name, in its own order
         sub = [s for s in stmts if s["k"] in ("subckt", "gate")]
@@ -253,6 +286,29 @@ def gen_design(rng, size=None, hazards=()):
             s["lay"]["inner"] = {"0": [rng.choice(["# inner", "# x y", "#"])]}
         else:
             lay["hdr_comments"] = {str(rng.randint(0, max(0, len(hdr) - 1))): [rng.choice(["# hdr", ""])]}
+    # black-box models before the top model: the reader first takes the first .model for the top and
+    # re-elects when the real top instantiates it (check_hierarchy), so the first one must be used
+    used_models = [s["model"] for s in stmts if s["k"] in ("subckt", "gate")]
+    if rng.random() < 0.12:
+        cands = [bb for bb in bbs if bb["declared"] and bb["name"] in used_models]
+        if cands:
+            first = rng.choice(cands)
+            first["first"] = True
+            bbs.remove(first)
+            bbs.insert(0, first)
+            for bb in bbs[1:]:
+                if bb["declared"] and rng.random() < 0.4:
+                    bb["first"] = True
+    # text outside any .model is ignored by the reader
+    def junk():
+        return " ".join(_word(rng, "gjq", ID_CHARS + "=[]", 0, 5) for _ in range(rng.randint(1, 3)))
+    if rng.random() < 0.1:
+        lay["junk_pre"] = [junk()]
+    if rng.random() < 0.1:
+        lay["junk_post"] = [junk()]
+    for bb in bbs:
+        if bb["declared"] and rng.random() < 0.05:
+            bb["before"] = [junk()]
     design = {"top": top, "hdr": hdr, "stmts": stmts, "bbs": bbs, "lay": lay}
     return design
 
@@ -325,9 +381,33 @@ def hazards_of(design):
         hz.append("port-growth")
     if default_name_collision(design):
         hz.append("cname-default")
+    if _later_drivers(design):
+        hz.append("multi-driver")
     if any(bb["declared"] and (bb["ins"] or bb["outs"]) for bb in design["bbs"]):
         hz.append("blackbox-ports")
     return hz
+
+
+def _later_drivers(design):
+    """indices of statements that drive a net bit an earlier statement already drives (drivers:
+    .names / .latch outputs, OUT pins of declared black boxes)"""
+    decl = {bb["name"]: set(x[0] for x in bb["outs"]) for bb in design["bbs"] if bb["declared"]}
+    seen = set()
+    later = []
+    for si, s in enumerate(design["stmts"]):
+        bits = []
+        if s["k"] == "names" and s["nets"] and s["nets"][-1] is not None:
+            bits.append((s["nets"][-1][0], s["nets"][-1][1]))
+        elif s["k"] == "latch" and len(s["fields"]) > 1 and s["fields"][1] is not None:
+            bits.append((s["fields"][1][0], s["fields"][1][1]))
+        elif s["k"] in ("subckt", "gate") and s["model"] in decl:
+            for c in s["conns"]:
+                if c[0] in decl[s["model"]] and c[3] is not None:
+                    bits.append((c[3][0], c[3][1]))
+        if any(b in seen for b in bits):
+            later.append(si)
+        seen.update(bits)
+    return later
 
 
 def default_name_collision(design):
@@ -385,6 +465,9 @@ def ablate(design, hz):
             if s["k"] != "conn" and s.get("cname") is not None and "_instance_" in s["cname"]:
                 s["cname"] = "Uabl%d" % n
                 n += 1
+    elif hz == "multi-driver":
+        drop = set(_later_drivers(d))
+        d["stmts"] = [s for i, s in enumerate(d["stmts"]) if i not in drop]
     elif hz == "blackbox-ports":
         for bb in d["bbs"]:
             bb["declared"] = False
